@@ -163,6 +163,9 @@ def run(run: Run) -> int:
         if not lab.model_ok:
             run.notes.append("translator could not read the lazy-loading source (%s): histories are judged by "
                              "the oracle only" % lab.unreadable)
+            if not run.proof_broken:
+                run.proof_broken.append("the model generated from the lazy-loading source cannot express the "
+                                        "histories (%s); histories are judged by the oracle only" % lab.unreadable)
         execute(run, lab, CORPUS, "iso-corpus", "corpus")
         ntab = 1 if run.tier == "quick" else 2
         total = 0
